@@ -23,6 +23,7 @@ package limit
 // C18: admission under a per-name limit.
 //@ func (*Bucket[V]).Upsert
 //@   props C18
+//@   ensures [monitor-lock-released] count("Mutex).Lock") == count("Mutex).Unlock") && count("Mutex).Lock") <= 1
 //@   requires b != nil && bucketInv(b)
 //@   ensures [inv] bucketInv(b)
 //@   ensures [no-capacity-admits-nothing] b.capacity < 1 ==> !ok && dom(b.index) == old(dom(b.index)) && len(b.items) == old(len(b.items))
@@ -43,6 +44,7 @@ package limit
 // C18: a bucket is stale only if every item in it has expired.
 //@ func (*Bucket[V]).IsStale
 //@   props C18
+//@   ensures [monitor-lock-released] count("Mutex).Lock") == count("Mutex).Unlock") && count("Mutex).Lock") == 1
 //@   requires b != nil && bucketInv(b)
 //@   ensures [all-expired] stale == (forall i int :: 0 <= i && i < len(b.items) ==> b.items[i].priority < clock())
 //@   ensures [clock] clock() >= old(clock())
